@@ -288,8 +288,7 @@ CHECKS["C19"] = dict(
           "kind x dtype/fill/start_index variant, copy, export and mutation step and judged by the checkers judge/frameJ, whose answers are "
           "certified in both directions (judge_sep, judge_shared, frameJ_ok, frameJ_changed). Public observations and re-exports are compared as "
           "well; caches are built before copying (get_ball_tree/get_kd_tree, subset.nearest_neighbor/bounding_circle, remap, to_geodataframe/...); after mutating one side the other side's tree answers are compared with a twin grid built from the same input, in both directions, and an identity audit of copy.__dict__ vs original.__dict__ runs on every copy; the abstract scenario is run in the Lean model (as-is and repaired) and the code may alias no more than the model. The "
-          "snapshot's aliasing is proved (asis_*) and was repaired by fixes 29dff011, c33e40e3, 5f6834f5, e8eed1a0; dataset adoption and "
-          "cached GeoDataFrame/LineCollection hand-out are known findings."),
+          "snapshot's aliasing is proved (asis_*) and was repaired by fixes 29dff011, c33e40e3, 5f6834f5, e8eed1a0; dataset adoption by Grid(ds)/from_dataset(ds, source_grid_spec=...) and the cached LineCollection hand-out were repaired by fixes fc70e732 and 1cb723d6; the cached GeoDataFrame hand-out stays a known finding (a pinned upstream test demands the identical frame). adopt_shallow_independent: after the shallow adoption ANY history of grid operations other than in-place array writes leaves every pre-existing cell, hence the caller's dataset, untouched (clean-action / watermark argument: runActs_clean, runActs_lowSame); caller edits of the input dataset after construction are not seen by the grid (tested)."),
     note=_TB + "Modelled, not verified: completeness of the extracted object graph (module-level state is C08's subject), CPython/NumPy/xarray "
          "aliasing semantics (zero-copy wrapping, Dataset.copy(deep=True), drop_vars), the mapping of real API calls to model operations. A grid's own stale tree after its own setters is not judged here (C08/C11). Zero-copy "
          "wrapping of input coordinate arrays is not judged (the statement forbids modifying inputs, not reading them in place). Differential-test level only.",
@@ -353,11 +352,11 @@ CHECKS["C13"] = dict(
           "fixes 1bade8c0, 55464bc2), asis_pole_missed, asis_false_pole (known findings). Tie: Grid.bounds vs the Lean transcription run at Float on "
           "generated convex 3..8-gons (anywhere, poleward-bulging edges, prime/anti-meridian, corner at a pole, pole enclosed, either start), "
           "and the verdict on the implementation's box is a Lean-evaluated oracle independent of the helpers (64 samples per edge + analytic "
-          "apex, orientation determinants for the pole, largest-gap longitude hull; 1e-9 rad), plus a directed stream of faces across lon 0 / +-180 listed from every start corner in both orientations. The FORM of the coordinate input is a random dimension of every case: dtype float64/float32/int64/int32/Python ints (integer forms on whole-degree lattice faces), construction through from_topology, open_grid(vertices, latlon=True), open_grid(xyz, radius 1/6371/0.25) and from_dataset, longitudes in [-180,180) or [0,360), with or without normalize_cartesian_coordinates(); the Lean oracle judges against the positions exactly as supplied (float32: 2e-5 rad). This dimension exposed a further defect repaired by fix e9d23560 (bounds computed from non-unit / float32 node vectors)."),
+          "apex, orientation determinants for the pole, largest-gap longitude hull; 1e-9 rad), plus a directed stream of faces across lon 0 / +-180 listed from every start corner in both orientations. The FORM of the coordinate input is a random dimension of every case: dtype float64/float32/int64/int32/Python ints (integer forms on whole-degree lattice faces), construction through from_topology, open_grid(vertices, latlon=True), open_grid(xyz, radius 1/6371/0.25) and from_dataset, longitudes in [-180,180) or [0,360), with or without normalize_cartesian_coordinates(); the Lean oracle judges against the positions exactly as supplied (float32: 2e-5 rad). This dimension exposed a further defect repaired by fix e9d23560 (bounds computed from non-unit / float32 node vectors). SIZE is a random dimension of every face: diameter log-uniform from 1e-7 rad (sub-metre) to 1.2 rad, anisotropic faces down to ~1e-6 rad thin (thin in latitude, in longitude, oblique), at every location class incl. faces a few diameters beside a pole and faces with one or two corners exactly on the equator; the verdict tolerance scales with the face, clamp(1e-6*diameter, 1e-12, 1e-9) rad; an exception from Grid.bounds on an admissible face is a spec failure."),
     note=_TB + "Only tested (not proved): that the parity flag of _pole_point_inside_polygon agrees with 'pole strictly inside' (it does not: "
          "see the known findings), that the corner longitudes span the boundary's longitudes (monotonicity of longitude along a pole-free arc; used by the oracle's largest-gap hull), "
          "attainment for pole faces, IEEE rounding, the ERROR_TOLERANCE clip/pole snap, np.mod/deg2rad, gca_gca_intersection/point_within_gca "
-         "(idealised in the model, C14). Corners within 0.06 deg of a pole (not on it) and poles within 1e-6 of the boundary are not generated. dtype promotion / conversion of the supplied coordinates (np.deg2rad of integer or float32 arrays, the float64 per-edge tables, normalisation of non-unit xyz) is only exercised by the form dimension, not modelled - the model is over a field. For faces with a corner exactly on longitude 0 the model/implementation comparison is skipped (end-point rounding of point_within_gca, C14); the oracle verdict is still applied. A numba TypingError for a coordinate dtype is noted, not judged (C08). Known findings: 4 (two pole-parity classes, corner on lon 0 => false pole, float32 pole corner).",
+         "(idealised in the model, C14). Generated faces keep the pole at least 1e-4 of their diameter away from every edge's great circle (or exactly on a corner). The comparison with the Lean transcription (not the oracle verdict) is skipped where the reference arc only touches the boundary: a corner exactly on longitude 0, the point (1,0,0) on an equatorial edge, a corner within 1e-7 rad of a pole (end-point rounding of point_within_gca, C14). Known findings: 9, all about the pole-parity count or ERROR_TOLERANCE: Equator branch (incl. two equator corners across lon 0), corner on lon 0 (pole missed / false pole / assert), crossings closer than 1e-8, snap zone within 1.414e-4 rad of a pole (wrong box / assert), float32 pole corner (not tight / not enclosed). dtype promotion / conversion of the supplied coordinates (np.deg2rad of integer or float32 arrays, the float64 per-edge tables, normalisation of non-unit xyz) is only exercised by the form dimension, not modelled - the model is over a field. For faces with a corner exactly on longitude 0 the model/implementation comparison is skipped (end-point rounding of point_within_gca, C14); the oracle verdict is still applied. A numba TypingError for a coordinate dtype is noted, not judged (C08). Known findings: 4 (two pole-parity classes, corner on lon 0 => false pole, float32 pole corner).",
     technique="Lean 4 theorems (field/real algebra, induction over edge lists) over a hand model + differential correspondence with a Lean-evaluated sampling oracle",
 )
 
